@@ -625,3 +625,41 @@ Proof.
     assert (E1 : (allowed =? n) = false) by (apply Z.eqb_neq; lia). rewrite E1, andb_false_r. cbn [andb].
     split; [reflexivity|]. simpl. repeat split; lia.
 Qed.
+
+(* ---------- reachable states: the per-event rules hold at every point of every history ---------- *)
+Definition reach (c : conn) : Prop :=
+  exists maxs evs os, forallb ev_ok evs = true /\ run_events (init_conn maxs) evs = Some (os, c).
+Lemma reach_inv c : reach c -> Inv c.
+Proof. intros (maxs & evs & os & Hev & Hr). destruct (no_bug_from_init maxs evs os c Hev Hr) as [_ H]. exact H. Qed.
+Lemma run_events_app : forall evs1 evs2 c os1 c1 os2 c2,
+  run_events c evs1 = Some (os1, c1) -> existsb (val_eqb Bug) os1 = false ->
+  run_events c1 evs2 = Some (os2, c2) ->
+  run_events c (evs1 ++ evs2) = Some (os1 ++ os2, c2).
+Proof.
+  induction evs1 as [|ev r IH]; intros evs2 c os1 c1 os2 c2 H1 Hb H2; simpl in H1.
+  - inversion H1; subst. exact H2.
+  - simpl. destruct (step c ev) as [[[c' fs] x]|]; [|discriminate].
+    destruct (has_bug fs) eqn:Hf.
+    + inversion H1; subst. simpl in Hb. discriminate.
+    + destruct (run_events c' r) as [[os' cf']|] eqn:Hr; [|discriminate].
+      inversion H1; subst. cbn [existsb] in Hb. rewrite obs_not_bug in Hb. cbn [orb] in Hb.
+      rewrite (IH evs2 c' os' c1 os2 c2 Hr Hb H2). reflexivity.
+Qed.
+(* after any history, one more event of any kind neither panics nor breaks the inbound bound *)
+Lemma reach_step c ev c' fs x :
+  reach c -> ev_ok ev = true -> step c ev = Some (c', fs, x) -> has_bug fs = false /\ reach c'.
+Proof.
+  intros Hr Hev Hs. pose proof (reach_inv c Hr) as HI.
+  destruct (good_step c ev c' fs x HI Hev Hs) as [HI' Hb]. split; [exact Hb|].
+  destruct Hr as (maxs & evs & os & Hevs & Hrun).
+  destruct (no_bug_from_init maxs evs os c Hevs Hrun) as [Hnb _].
+  exists maxs, (evs ++ [ev]), (os ++ [obs c' fs x]). split.
+  - rewrite forallb_app, Hevs. simpl. rewrite Hev. reflexivity.
+  - apply (run_events_app evs [ev] (init_conn maxs) os c [obs c' fs x] c' Hrun Hnb).
+    simpl. rewrite Hs, Hb. reflexivity.
+Qed.
+(* replenish at every point of every history *)
+Lemma reach_read_replenishes c id k s :
+  reach c -> find_s id (strs c) = Some s -> 0 < zmin k (buf s) -> muted c = false ->
+  exists c' fs, handler_read c id k = (c', f_wu 0 (zmin k (buf s)) :: fs, zmin k (buf s)).
+Proof. intros Hr. apply read_replenishes. apply reach_inv. exact Hr. Qed.
